@@ -99,12 +99,15 @@ def run(ctx, coq_ok):
             jobs.append((d, "raw", None, "unicode", "".join(rng.choice(uni) for _ in range(rng.randrange(1, 40)))))
     nt = 40 if ctx.tier == "quick" else 400
     for i in range(nt):
-        jobs.append((rng.choice(["ansi", "snowflake", "bigquery", "postgres"]), "jinja", i % 2, "jinja-gen", corpus.gen_jinja(rng)))
+        jobs.append((rng.choice(["ansi", "snowflake", "bigquery", "postgres"]), "jinja", i % 4, "jinja-gen", corpus.gen_jinja(rng)))
     for i in range(nt // 2):
         jobs.append(("ansi", "python", None, "pyformat-gen", corpus.gen_pyformat(rng)))
     # rendered text that contains characters the source normalisation does not touch (a lone CR produced by the template)
     for s_ in ["SELECT {{ 'a\\rb' }} FROM t\n", "SELECT {{ \"x\\r\" }}, 1\n", "{{ '\\r' }}SELECT 1\n", "SELECT {{ '\\x0b\\x0c' }} 1\n"]:
         jobs.append(("ansi", "jinja", 0, "jinja-control-chars", s_))
+    for s_ in ["SELECT a {% if false %}, b{% endif %} FROM t\n", "SELECT {% if flag %}a{% else %}b , c{% endif %} FROM t\n", "SELECT 1 {% for i in [] %}, {{ i }}{% endfor %}\n"]:
+        for st in (0, 1, 2, 3):
+            jobs.append(("ansi", "jinja", st, "jinja-unrendered-branch", s_))
     for style in corpus.PLACEHOLDER_STYLES:
         for _ in range(2 if ctx.tier == "quick" else 8):
             jobs.append(("ansi", "placeholder", style, "placeholder-" + style, corpus.gen_placeholder(rng, style)))
